@@ -46,7 +46,7 @@ const (
 // ---- operations ---------------------------------------------------------------
 
 type op struct {
-	Kind string `json:"k"` // est raw mint resume renew tick inval sweep
+	Kind string `json:"k"` // est raw mint ft resume renew tick inval sweep
 	// est: Enc (true = AES session, false = plaintext session)
 	Enc  bool `json:"enc,omitempty"`
 	Auth bool `json:"auth,omitempty"` // est: CLAIMTOBE authentication, the server maps the identity (PostAuthPolicy)
@@ -58,6 +58,13 @@ type op struct {
 	NoExp  bool   `json:"noexp,omitempty"`  // raw: zero expiration
 	Inh    bool   `json:"inh,omitempty"`    // raw: SetInherited(true), as every imported (inherited / claim / minted) session is
 	Inv    bool   `json:"inv,omitempty"`    // resume: Invalidate(session) lands while the server is writing its reply
+	// resume: the request names an id DERIVED from session N's id (filetrans xfer suffix upper substr);
+	// the requester may hold session N's key
+	Derive string `json:"derive,omitempty"`
+	// mint: Encryption / Integrity switched off in the claim's own policy; raw: policy strings Encryption/Integrity ("NO/NO", ...)
+	EncOff bool   `json:"encoff,omitempty"`
+	IntOff bool   `json:"intoff,omitempty"`
+	PolSec string `json:"polsec,omitempty"`
 	// resume
 	N     int    `json:"n,omitempty"`     // target session ordinal (also renew / inval)
 	Req   string `json:"req,omitempty"`   // legit idonly wrongkey rightkey unknown onechar
@@ -87,6 +94,7 @@ type sess struct {
 	hasPol  bool
 	client  *security.SessionCache // client cache holding the client's copy (est only)
 	keyKind string
+	claimID string // mint: the secret claim id
 	// est only: what the cache entry recorded, and the identity the client was told
 	storedUser  string
 	storedAuthd bool
@@ -470,12 +478,20 @@ func (w *world) establish(enc, authn bool) *sess {
 }
 
 // mint registers a claim session the way a startd does (MintClaimSession: imported state, flagged inherited)
-func (w *world) mint(n int) *sess {
+func (w *world) mint(n int, encOff, intOff bool) *sess {
 	c := security.GetSessionCache()
-	m, err := security.MintClaimSession(c, security.MintClaimOptions{
+	opts := security.MintClaimOptions{
 		Sinful: fmt.Sprintf("<10.9.9.9:9618?sock=startd_%d>", n), Birthdate: 1700000000, SequenceNum: n,
 		Lifetime: sessDuration * time.Second,
-	})
+	}
+	no := false
+	if encOff {
+		opts.Encryption = &no
+	}
+	if intOff {
+		opts.Integrity = &no
+	}
+	m, err := security.MintClaimSession(c, opts)
 	if err != nil {
 		return nil
 	}
@@ -483,7 +499,30 @@ func (w *world) mint(n int) *sess {
 	if !ok {
 		return nil
 	}
-	s := &sess{id: m.SessionID(), exp: w.now + sessDuration, lease: int64(e.Lease() / time.Second), keyKind: "minted"}
+	s := &sess{id: m.SessionID(), exp: w.now + sessDuration, lease: int64(e.Lease() / time.Second), keyKind: "minted", claimID: m.ClaimID()}
+	return fillFromEntry(s, e)
+}
+
+// importFT registers the file-transfer session a shadow derives from minted claim `of` ("filetrans."+id, same secret)
+func (w *world) importFT(of *sess) *sess {
+	c := security.GetSessionCache()
+	id, err := security.ImportFileTransferSession(c, of.claimID, security.ClaimSessionOptions{PeerAddr: clientAddr, Duration: sessDuration * time.Second})
+	if err != nil {
+		return nil
+	}
+	e, ok := c.VerifSessionKeys()[id]
+	if !ok {
+		return nil
+	}
+	exp := w.now + sessDuration
+	if e.Expiration().IsZero() {
+		exp = -1
+	}
+	s := &sess{id: id, exp: exp, lease: int64(e.Lease() / time.Second), keyKind: "filetrans"}
+	return fillFromEntry(s, e)
+}
+
+func fillFromEntry(s *sess, e *security.SessionEntry) *sess {
 	if ki := e.KeyInfo(); ki != nil {
 		s.key, s.proto = ki.Data, ki.Protocol
 	}
@@ -495,6 +534,29 @@ func (w *world) mint(n int) *sess {
 		s.valid, _ = pol.EvaluateAttrString("ValidCommands")
 	}
 	return s
+}
+
+// derive builds an id from a stored id that names no session of its own
+func derive(id, how string) string {
+	switch how {
+	case "filetrans":
+		return "filetrans." + id
+	case "xfer":
+		return "xfer." + id
+	case "suffix":
+		return id + ".1"
+	case "upper":
+		u := strings.ToUpper(id)
+		if u == id {
+			u = strings.ToLower(id)
+		}
+		return u
+	case "substr":
+		if len(id) > 1 {
+			return id[:len(id)-1]
+		}
+	}
+	return id + "~"
 }
 
 func (w *world) storeRaw(o op, n int) *sess {
@@ -530,6 +592,10 @@ func (w *world) storeRaw(o op, n int) *sess {
 		}
 		s.valid = "421,60007"
 		_ = pol.Set("ValidCommands", s.valid)
+		if parts := strings.Split(o.PolSec, "/"); len(parts) == 2 { // the session's own Encryption / Integrity policy strings
+			_ = pol.Set("Encryption", parts[0])
+			_ = pol.Set("Integrity", parts[1])
+		}
 	}
 	exp := time.Now().Add(sessDuration * time.Second)
 	if o.NoExp {
@@ -649,13 +715,38 @@ func runHistory(h history) runOut {
 				term = fmt.Sprintf("YStoreP n%d %s %s %s z%d z%d", len(w.sess), core.Bool(s.custom), keyTerm(s), polTerm(s), sessDuration, sessLease)
 			}
 		case "mint":
-			s := w.mint(len(w.sess) + 1)
+			s := w.mint(len(w.sess)+1, o.EncOff, o.IntOff)
 			w.sess = append(w.sess, s)
 			if s == nil {
 				fail("establish-failed", "%s: MintClaimSession failed", what)
 				return out
 			}
 			term = fmt.Sprintf("YStoreP n%d false %s %s z%d z%d", len(w.sess), keyTerm(s), polTerm(s), sessDuration, s.lease)
+		case "ft":
+			of := sessOf(o.N)
+			if of == nil || of.claimID == "" {
+				continue
+			}
+			already := false
+			for _, x := range w.sess {
+				if x != nil && x.id == "filetrans."+of.id {
+					already = true
+				}
+			}
+			if already {
+				continue
+			}
+			s := w.importFT(of)
+			w.sess = append(w.sess, s)
+			if s == nil {
+				fail("establish-failed", "%s: ImportFileTransferSession failed", what)
+				return out
+			}
+			if s.exp < 0 {
+				term = fmt.Sprintf("YStoreRaw n%d false %s %s z%d", len(w.sess), keyTerm(s), polTerm(s), s.lease)
+			} else {
+				term = fmt.Sprintf("YStoreP n%d false %s %s z%d z%d", len(w.sess), keyTerm(s), polTerm(s), sessDuration, s.lease)
+			}
 		case "tick":
 			d := -time.Duration(o.Dt) * time.Second
 			for _, c := range []*security.SessionCache{security.GetSessionCache(), w.custom} {
@@ -729,10 +820,26 @@ func runHistory(h history) runOut {
 				sid, target = s.id, s
 				sidTerm = fmt.Sprintf("(QSess n%d)", o.N)
 			}
+			var baseKey []byte
+			if o.Derive != "" && s != nil && (o.Req == "rightkey" || o.Req == "idonly" || o.Req == "wrongkey") {
+				// an id derived from session N's id: it names a session only if exactly that id was registered
+				sid, target, baseKey = derive(s.id, o.Derive), nil, s.key
+				dk := map[string]int{"filetrans": 1, "xfer": 2, "suffix": 3, "upper": 4, "substr": 5}[o.Derive]
+				sidTerm = fmt.Sprintf("(QDerived n%d n%d)", o.N, dk)
+				for i, x := range w.sess {
+					if x != nil && x.id == sid {
+						target = x
+						sidTerm = fmt.Sprintf("(QSess n%d)", i+1)
+					}
+				}
+				if o.Req == "rightkey" && len(baseKey) != 32 {
+					continue
+				}
+			}
 			if o.Req == "legit" && (target == nil || target.client == nil) {
 				continue
 			}
-			if o.Req == "rightkey" && (target == nil || target.key == nil || len(target.key) != 32) {
+			if o.Req == "rightkey" && baseKey == nil && (target == nil || target.key == nil || len(target.key) != 32) {
 				continue
 			}
 			peer := clientAddr
@@ -744,7 +851,7 @@ func runHistory(h history) runOut {
 			var hook func()
 			invRan, invRet := false, false
 			if o.Inv {
-				if target == nil || o.Req == "legit" {
+				if target == nil || o.Req == "legit" || o.Derive != "" {
 					continue
 				}
 				hook = func() { invRan, invRet = true, w.cacheOf(target).Invalidate(target.id) }
@@ -760,7 +867,11 @@ func runHistory(h history) runOut {
 			case "wrongkey":
 				ro = scripted(cc, sid, want, cmd, detKey(o.N, 99))
 			case "rightkey":
-				ro = scripted(cc, sid, want, cmd, target.key)
+				k := baseKey
+				if k == nil {
+					k = target.key
+				}
+				ro = scripted(cc, sid, want, cmd, k)
 			default: // idonly unknown onechar
 				ro = scripted(cc, sid, want, cmd, nil)
 			}
@@ -775,7 +886,7 @@ func runHistory(h history) runOut {
 
 			// ---- the direct oracle ----
 			out.checks++
-			holdsKey := o.Req == "legit" || o.Req == "rightkey"
+			holdsKey := o.Req == "legit" || (o.Req == "rightkey" && (baseKey == nil || (target != nil && bytes.Equal(baseKey, target.key))))
 			if so.ok {
 				out.ok++
 				switch {
@@ -1009,18 +1120,23 @@ func randOp(c *core.Ctx, nsess int, custom bool) op {
 			enc := r.Intn(3) > 0
 			return op{Kind: "est", Enc: enc, Auth: r.Intn(2) == 0}
 		}
-		if r.Intn(5) == 0 {
-			return op{Kind: "mint"}
+		if r.Intn(4) == 0 {
+			return op{Kind: "mint", EncOff: r.Intn(2) == 0, IntOff: r.Intn(2) == 0}
 		}
-		return op{Kind: "raw", Key: keys[r.Intn(len(keys))], Custom: custom && r.Intn(2) == 0, Pol: pols[r.Intn(4)], NoExp: r.Intn(8) == 0, Inh: r.Intn(3) == 0}
+		return op{Kind: "raw", Key: keys[r.Intn(len(keys))], Custom: custom && r.Intn(2) == 0, Pol: pols[r.Intn(4)], NoExp: r.Intn(8) == 0, Inh: r.Intn(3) == 0,
+			PolSec: []string{"", "", "NO/NO", "NO/YES", "YES/NO", "YES/YES", "NEVER/NEVER"}[r.Intn(7)]}
 	case x < 62:
 		o := op{Kind: "resume", N: 1 + r.Intn(nsess), Req: reqs[r.Intn(len(reqs))], Want: r.Intn(3) > 0, Other: r.Intn(4) == 0, Opt: r.Intn(2) == 0, Cmd: []int{421, 60007, 0}[r.Intn(3)]}
 		if r.Intn(8) == 0 && (o.Req == "idonly" || o.Req == "rightkey" || o.Req == "wrongkey") {
 			o.Inv = true
+		} else if r.Intn(5) == 0 {
+			o.Derive = []string{"filetrans", "filetrans", "xfer", "suffix", "upper", "substr"}[r.Intn(6)]
 		}
 		return o
-	case x < 70:
+	case x < 66:
 		return op{Kind: "renew", N: 1 + r.Intn(nsess)}
+	case x < 70:
+		return op{Kind: "ft", N: 1 + r.Intn(nsess)}
 	case x < 86:
 		return op{Kind: "tick", Dt: []int{500, 1500, 500, 3000}[r.Intn(4)]}
 	case x < 94:
@@ -1071,6 +1187,22 @@ func gen(c *core.Ctx) error {
 		{{Kind: "raw", Key: "aesgcm32", Pol: "auth", Inh: true}, R(1, "rightkey", true), {Kind: "tick", Dt: 3000}, R(1, "rightkey", true), R(1, "rightkey", false), R(1, "idonly", true)},
 		{{Kind: "mint"}, R(1, "rightkey", true), {Kind: "tick", Dt: 1500}, R(1, "rightkey", true), {Kind: "tick", Dt: 1500}, R(1, "rightkey", true), R(1, "idonly", true), {Kind: "renew", N: 1}, R(1, "rightkey", false)},
 		{{Kind: "raw", Key: "aes32", Pol: "auth", Inh: true}, {Kind: "tick", Dt: 3000}, {Kind: "renew", N: 1}, R(1, "rightkey", true), {Kind: "sweep"}, R(1, "rightkey", true)},
+		// ids derived from a stored id: only the exact live id may resume
+		{{Kind: "mint"}, {Kind: "resume", N: 1, Req: "rightkey", Want: true, Derive: "filetrans", Cmd: 421}, {Kind: "resume", N: 1, Req: "rightkey", Derive: "filetrans", Opt: true, Cmd: 421},
+			{Kind: "resume", N: 1, Req: "idonly", Want: true, Derive: "filetrans", Cmd: 421}, {Kind: "resume", N: 1, Req: "rightkey", Want: true, Derive: "xfer", Cmd: 421},
+			{Kind: "resume", N: 1, Req: "rightkey", Want: true, Derive: "suffix", Cmd: 421}, {Kind: "resume", N: 1, Req: "rightkey", Want: true, Derive: "upper", Cmd: 421},
+			{Kind: "resume", N: 1, Req: "rightkey", Want: true, Derive: "substr", Cmd: 421}, R(1, "rightkey", true)},
+		{{Kind: "mint"}, {Kind: "ft", N: 1}, {Kind: "resume", N: 1, Req: "rightkey", Want: true, Derive: "filetrans", Cmd: 421}, {Kind: "inval", N: 2},
+			{Kind: "resume", N: 1, Req: "rightkey", Want: true, Derive: "filetrans", Cmd: 421}, {Kind: "resume", N: 1, Req: "rightkey", Derive: "filetrans", Cmd: 421}, R(1, "rightkey", true)},
+		{{Kind: "mint"}, {Kind: "ft", N: 1}, {Kind: "tick", Dt: 3000}, {Kind: "resume", N: 1, Req: "rightkey", Want: true, Derive: "filetrans", Cmd: 421}, R(1, "rightkey", true), R(2, "rightkey", true)},
+		{{Kind: "raw", Key: "aes32", Pol: "auth"}, {Kind: "resume", N: 1, Req: "rightkey", Want: true, Derive: "filetrans", Cmd: 421}, {Kind: "resume", N: 1, Req: "rightkey", Want: true, Derive: "upper", Cmd: 421}},
+		// the session's own policy says no encryption / no integrity: the key is installed all the same
+		{{Kind: "mint", EncOff: true, IntOff: true}, {Kind: "resume", N: 1, Req: "idonly", Want: true, Opt: true, Cmd: 421}, {Kind: "resume", N: 1, Req: "idonly", Opt: true, Cmd: 421},
+			{Kind: "resume", N: 1, Req: "rightkey", Want: true, Opt: true, Cmd: 421}, {Kind: "resume", N: 1, Req: "wrongkey", Want: true, Opt: true, Cmd: 421}, R(1, "idonly", true)},
+		{{Kind: "mint", EncOff: true}, {Kind: "resume", N: 1, Req: "idonly", Want: true, Opt: true, Cmd: 421}, {Kind: "resume", N: 1, Req: "rightkey", Want: true, Opt: true, Cmd: 421}},
+		{{Kind: "mint", IntOff: true}, {Kind: "resume", N: 1, Req: "idonly", Want: true, Opt: true, Cmd: 421}, {Kind: "resume", N: 1, Req: "rightkey", Want: true, Opt: true, Cmd: 421}},
+		{{Kind: "raw", Key: "aesgcm32", Pol: "auth", PolSec: "NO/NO"}, {Kind: "resume", N: 1, Req: "idonly", Want: true, Opt: true, Cmd: 421}, {Kind: "resume", N: 1, Req: "rightkey", Want: true, Opt: true, Cmd: 421}, {Kind: "resume", N: 1, Req: "idonly", Opt: true, Cmd: 421}},
+		{{Kind: "raw", Key: "aes32", Pol: "unauth", PolSec: "NEVER/NEVER"}, {Kind: "resume", N: 1, Req: "idonly", Want: true, Opt: true, Cmd: 421}, {Kind: "resume", N: 1, Req: "rightkey", Want: true, Opt: true, Cmd: 421}},
 		// Invalidate lands while the reply of an in-flight resumption is being written
 		{{Kind: "raw", Key: "aes32", Pol: "auth"}, {Kind: "resume", N: 1, Req: "rightkey", Want: true, Inv: true, Cmd: 421}, R(1, "rightkey", true), R(1, "rightkey", false), R(1, "idonly", true)},
 		{{Kind: "est", Enc: true}, {Kind: "resume", N: 1, Req: "idonly", Want: true, Inv: true, Cmd: 421}, R(1, "legit", true), R(1, "idonly", true)},
@@ -1119,6 +1251,7 @@ func gen(c *core.Ctx) error {
 		{op{Kind: "est", Enc: false}, "legit"},
 		{op{Kind: "raw", Key: "aes32", Pol: "auth"}, "rightkey"},
 		{op{Kind: "mint"}, "rightkey"},
+		{op{Kind: "mint", EncOff: true, IntOff: true}, "rightkey"},
 		{op{Kind: "raw", Key: "nil", Pol: "auth"}, "wrongkey"},
 	} {
 		alpha := []op{{Kind: "resume", N: 1, Req: "idonly", Want: true, Opt: true, Cmd: 421}, R(1, k.holder, true), {Kind: "renew", N: 1}, {Kind: "tick", Dt: 1500}, {Kind: "tick", Dt: 3000}, {Kind: "inval", N: 1}, {Kind: "sweep"}, {Kind: "resume", N: 1, Req: "idonly", Want: true, Inv: true, Cmd: 421}}
@@ -1148,8 +1281,8 @@ func gen(c *core.Ctx) error {
 		ns := 0
 		for k := 0; k < l; k++ {
 			o := randOp(c, ns, cu)
-			if o.Kind == "est" || o.Kind == "raw" || o.Kind == "mint" {
-				ns++
+			if o.Kind == "est" || o.Kind == "raw" || o.Kind == "mint" || o.Kind == "ft" {
+				ns++ // (an ft that is skipped leaves a gap; later ordinals beyond the list are skipped too)
 			}
 			ops = append(ops, o)
 		}
